@@ -25,6 +25,7 @@ const chunkSize = 0xFFFF // loadAOF reads the file in packets of this size
 type Arg struct {
 	Q   string `json:"q"`
 	Rep int    `json:"rep,omitempty"`
+	Pad int    `json:"pad,omitempty"` // that many 'p' bytes appended (exact-length values)
 }
 
 func lit(s string) Arg { return Arg{Q: strconv.Quote(s)} }
@@ -37,9 +38,38 @@ func (a Arg) Val() string {
 		panic("bad quoted argument " + a.Q)
 	}
 	if a.Rep > 1 {
-		return strings.Repeat(s, a.Rep)
+		s = strings.Repeat(s, a.Rep)
+	}
+	if a.Pad > 0 {
+		s += strings.Repeat("p", a.Pad)
 	}
 	return s
+}
+
+// size is len(a.Val()) without building the value.
+func (a Arg) size() int {
+	s, err := strconv.Unquote(a.Q)
+	if err != nil {
+		panic("bad quoted argument " + a.Q)
+	}
+	n := len(s)
+	if a.Rep > 1 {
+		n *= a.Rep
+	}
+	return n + a.Pad
+}
+
+// encLen is the length of the item's bytes in the log.
+func (it Item) encLen() int {
+	if len(it.Cmd) == 0 {
+		return it.Nul
+	}
+	n := 1 + len(strconv.Itoa(len(it.Cmd))) + 2
+	for _, a := range it.Cmd {
+		l := a.size()
+		n += 1 + len(strconv.Itoa(l)) + 2 + l + 2
+	}
+	return n
 }
 
 // Item is either a run of Nul zero bytes or a command.
@@ -372,9 +402,59 @@ type cutInfo struct {
 	cmdName  string
 	labels   []string
 	relStart int // offset of the cut within the torn command
+
+	healthyMulti bool // ends on a boundary and needs more than one read
 }
 
+// info classifies a cut and adds the read geometry of the file log[:c]: how
+// many 65535-byte reads the loader needs, whether the file is the whole log,
+// whether it ends on a command boundary after a multi-read load (no tear at
+// all), whether that boundary is a read boundary, and whether the partial
+// command carried into the last read is longer than the last read itself.
 func (b *built) info(c int) cutInfo {
+	ci := b.info0(c)
+	if c == len(b.bytes) {
+		ci.labels = append(ci.labels, "uncut")
+	}
+	reads := (c + chunkSize - 1) / chunkSize
+	switch {
+	case reads >= 4:
+		ci.labels = append(ci.labels, "reads:4+")
+	case reads >= 2:
+		ci.labels = append(ci.labels, fmt.Sprintf("reads:%d", reads))
+	}
+	if !ci.inside && reads >= 2 {
+		ci.healthyMulti = true
+		ci.labels = append(ci.labels, "no-tear-multi-read")
+		if c%chunkSize == 0 {
+			ci.labels = append(ci.labels, "no-tear-ends-on-read-edge")
+		}
+	}
+	// command boundaries that coincide with a read boundary inside the file
+	for _, s := range b.segs {
+		if s.end > c {
+			break
+		}
+		if s.cmd >= 0 && s.end%chunkSize == 0 && s.end/chunkSize >= 1 && s.end < c {
+			ci.labels = append(ci.labels, "command-ends-on-read-edge-inside")
+			break
+		}
+	}
+	if reads >= 2 {
+		lastStart := ((c - 1) / chunkSize) * chunkSize
+		for _, s := range b.segs {
+			if s.cmd >= 0 && s.start < lastStart && s.end > lastStart {
+				if lastStart-s.start > c-lastStart {
+					ci.labels = append(ci.labels, "last-read-shorter-than-carry")
+				}
+				break
+			}
+		}
+	}
+	return ci
+}
+
+func (b *built) info0(c int) cutInfo {
 	ci := cutInfo{cut: c}
 	lastEnd := 0 // end of the last complete command before the cut
 	for i, s := range b.segs {
